@@ -416,7 +416,8 @@ package pubsub
 //@   invariant handlers: self.inboundStreams != nil && (forall q string :: q in self.inboundStreams ==> self.inboundStreams[q].s != nil)
 
 //@ func (*PubSub).handleNewStream
-//@   property C12
+//@   property C12 C14
+//@   cancellable
 //@   safe
 //@   requires wf: p != nil && s != nil && p.inboundStreams != nil && p.rpcLogger != nil
 //@   noframe
